@@ -817,6 +817,22 @@ Proof.
   repeat split.
 Qed.
 
+(** Two attrs bases [class Leaf(Data, Hooked)]: [Data] carries the flag False, [Hooked]
+    True; the dict build stops at [Data], the slotted build sees [Hooked] (K08.4). *)
+Theorem setattr_reset_two_bases_refuted :
+  exists i, i_wrote_own_setattr i = false /\ i_has_custom_setattr i = false /\
+            dict_reset i = false /\ slots_reset i = true.
+Proof.
+  exists {| i_old := 0; i_new := 1; i_ns := []; i_attr_names := ["a"; "x"]; i_base_names := ["a"];
+            i_mro := [ {| b_id := 2; b_slots := SlotsSeq [("a", Some 20)]; b_weakref := true; b_dict := false;
+                          b_own_setattr := Some false; b_immediate := true; b_hook := false; b_layer := None |};
+                       {| b_id := 3; b_slots := SlotsSeq []; b_weakref := true; b_dict := true; b_own_setattr := Some true;
+                          b_immediate := true; b_hook := false; b_layer := None |} ];
+            i_weakref_slot := true; i_cache_hash := false; i_orig_slots := []; i_wrote_own_setattr := false;
+            i_has_custom_setattr := false; i_store := []; i_fresh := 0 |}.
+  repeat split.
+Qed.
+
 Example ex_reset_agree :
   exists i, reset_guard i = true /\ dict_reset i = true /\ slots_reset i = true.
 Proof.
